@@ -899,7 +899,7 @@ func runC07(r *Run) {
 	ruleUnitErrorsInspected(r, "R07.17")
 	// R07.15: the shared components on Run's path equal their reference models, which are total
 	// (no index outside a ring, a queue or a line): a component that deviates may panic
-	r.floor("R07.15", 45)
+	r.floor("R07.15", 49)
 	for _, m := range []string{"Read", "Find", "Write", "WriteSorted", "Values", "FindValues"} {
 		conform(r, "R07.15", "proc/comp", "RAT", m, "risc_state", nil)
 	}
@@ -911,6 +911,7 @@ func runC07(r *Run) {
 	}
 	ruleBusConformance(r, "R07.15")
 	ruleCoroutineConformance(r, "R07.15")
+	ruleSemConformance(r, "R07.15")
 	r.floor("R07.18", 4)
 	rulePendingKey(r, "R07.18")
 	// R07.19: every buffered bus is connected once per cycle (the pipeline starves otherwise);
